@@ -18,8 +18,9 @@ TRUSTED = [
     "that a thread that makes a request again after a transport error is not answered from the memo instead is argued from the carrier lock "
     "(ConcTower's lock_protects_data), not re-proved at the thread level: the theorem allows 'answered from the memo' after an error",
     "harness/src/bin/outage + pollworld.rs: real ChainMonitor + LDK SpvClient over a simulated block source, real tower, the chain monitor in its own "
-    "thread and every API request in a worker thread; hook H3 (teos/src/verif_sync.rs) reports waits and lock requests, so 'blocked' is read from the "
-    "wait state after the process has made no lock event for 60 ms (a time-out is only the fallback)",
+    "thread and every API request in a worker thread; hook H3 (teos/src/verif_sync.rs) reports waits and lock requests, so 'blocked for good' is "
+    "read from the wait-for graph (waiting on the condition variable with the flag false; asking for a lock whose holder is blocked for good), a "
+    "10 s time-out is only the fallback; monitor_chain itself is driven once with a stalling download (1 s polling interval, real time)",
     "extraction (ExtrOcamlBasic) + drv_outage.ml",
     "real-thread timing, tokio, std Mutex/Condvar semantics: observed, not proved; 'eventually' is proved over abstract poll events only",
 ]
